@@ -38,9 +38,12 @@ deriving DecidableEq, Repr
 
 abbrev Res := Except Err
 
-instance {α} [DecidableEq α] : DecidableEq (Res α) := by
-  intro a b
-  cases a <;> cases b <;> simp <;> infer_instance
+instance {α} [DecidableEq α] : DecidableEq (Res α)
+  | .ok a, .ok b => if h : a = b then isTrue (congrArg _ h) else isFalse (fun e => h (Except.ok.inj e))
+  | .error a, .error b =>
+    if h : a = b then isTrue (congrArg _ h) else isFalse (fun e => h (Except.error.inj e))
+  | .ok _, .error _ => isFalse (fun e => nomatch e)
+  | .error _, .ok _ => isFalse (fun e => nomatch e)
 
 /-- type characters -/
 def tyA : UInt8 := 97      -- 'a'
